@@ -541,6 +541,13 @@ func parsePromQLFunc(s Source, expr string, n *promParser.Call) Source {
 	case "absent", "absent_over_time":
 		s.Returns = promParser.ValueTypeVector
 		s.FixedLabels = true
+		// absent() returns something only when its argument doesn't, nothing known about the argument applies to it.
+		s.AlwaysReturns = false
+		s.KnownReturn = false
+		s.IsConditional = false
+		s.IsDead = false
+		s.IsDeadReason = ""
+		s.IsDeadPosition = posrange.PositionRange{}
 		s.IncludedLabels = nil
 		s.GuaranteedLabels = nil
 		for _, name := range labelsFromSelectors([]labels.MatchType{labels.MatchEqual}, s.Selector) {
